@@ -170,16 +170,22 @@ theorem intoWriter_good (n : Nat) : ∀ (b : Buf), WF n b → GoodOut n (intoWri
   | .task base dg t r, h => afterTask_good n _ t r (intoWriter_good n base h.2)
   | .eh base dg, h => cr_good n (.eh base dg) true h
 
-theorem discard_np : ∀ (b : Buf), NoPanic (discard b).res
-  | .err k => by simp [discard, NoPanic, unit]
-  | .bytes d => by simp [discard, NoPanic, unit]
-  | .readerAt d => by simp [discard, NoPanic, unit]
-  | .stream c sz q d => by simp [discard, NoPanic, unit]
-  | .cloned base dg sibs => by simp [discard, NoPanic, unit]
-  | .task base dg t r => by
-    have ih := discard_np base
+theorem discard_np (n : Nat) : ∀ (b : Buf), WF n b → NoPanic (discard b).res
+  | .err k, _ => by simp [discard, NoPanic, unit]
+  | .bytes d, _ => by simp [discard, NoPanic, unit]
+  | .readerAt d, _ => by simp [discard, NoPanic, unit]
+  | .stream c sz q d, _ => by simp [discard, NoPanic, unit]
+  | .cloned base dg sibs, h => by
+    have g := cr_good n base (wantsValidation false sibs) h.2
+    simp only [discard]
+    cases hb : (cr base (wantsValidation false sibs)).res with
+    | panic => exact absurd hb g.1
+    | err k => simp [NoPanic, unit]
+    | ok d s => simp [NoPanic, unit]
+  | .task base dg t r, h => by
+    have ih := discard_np n base h.2
     simp only [discard]
     cases hb : (discard base).res <;> simp_all [NoPanic, unit]
-  | .eh base dg => by simp only [discard]; exact discard_np base
+  | .eh base dg, h => by simp only [discard]; exact discard_np n base h.2
 
 end BB.Mux
